@@ -220,7 +220,7 @@ impl Prop for C13 {
     }
 
     fn rule(&self) -> String {
-        "Cases: `go wtime W btime B winc X binc Y` (four field orders; one time in three an increment field whose value is 0 is left out, as GUIs that send increments only when there are any do; one time in three with a `movestogo N` field, N from 1 to 80, at the end, the front or after the first field) with W, B log-uniform over 0..10^7 plus boundary values around 150/155 ms and the 7.5 s clock, increments 0 / small / clock-like / up to 10^5 / within 0-400 ms (or 0-3200 ms) below or above the mover's own clock, either side to move; `go movetime T`, T in 0..2000 with boundary values; and (one case in five) a fixed move time together with the four clock fields, in any of five places among them and optionally with `movestogo` / `depth` fields, T kept at or below the mover's clock so that the limit is T under either reading of the statement. One command in four additionally carries a standard field this engine does not implement (`ponder`, `searchmoves` with 1-4 moves, `nodes N`, `mate N`) in front of or behind the rest. Through the real binary: the `info time N` line must exist and N must not exceed the mover's remaining time (resp. T), hence be finite and non-negative; allotments up to 400 ms are run to completion and `bestmove` must arrive (later than N + 5 s = violation, between 2 and 5 s = inconclusive); for longer ones only the allotted figure is judged (isready / stop / quit behaviour belongs to C14). evaluations = go commands judged. Non-trivial: 2 % of the clock plus increment below 155 ms, or increment above the clock, or movetime below 5; distinct by command and side.".into()
+        "Cases: `go wtime W btime B winc X binc Y` (four field orders; one time in three an increment field whose value is 0 is left out, as GUIs that send increments only when there are any do; one time in three with a `movestogo N` field, N from 1 to 80, at the end, the front or after the first field) with W, B log-uniform over 0..10^7 plus boundary values around 150/155 ms and the 7.5 s clock, increments 0 / small / clock-like / up to 10^5 / within 0-400 ms (or 0-3200 ms) below or above the mover's own clock, either side to move; `go movetime T`, T in 0..2000 with boundary values; and (one case in five; one in sixteen with the move time within 400 ms below the mover's own clock) a fixed move time together with the four clock fields, in any of five places among them and optionally with `movestogo` / `depth` fields, T kept at or below the mover's clock so that the limit is T under either reading of the statement. One command in four additionally carries a standard field this engine does not implement (`ponder`, `searchmoves` with 1-4 moves, `nodes N`, `mate N`) in front of or behind the rest. Through the real binary: the `info time N` line must exist and N must not exceed the mover's remaining time (resp. T), hence be finite and non-negative; allotments up to 400 ms are run to completion and `bestmove` must arrive (later than N + 5 s = violation, between 2 and 5 s = inconclusive); for longer ones only the allotted figure is judged (isready / stop / quit behaviour belongs to C14). evaluations = go commands judged. Non-trivial: 2 % of the clock plus increment below 155 ms, or increment above the clock, or movetime below 5; distinct by command and side.".into()
     }
 
     fn assumptions(&self) -> Vec<String> {
@@ -259,6 +259,12 @@ impl Prop for C13 {
                     let d1 = if far { d1 * 8 } else { d1 };
                     let near = |c: u64, d: u64| if below { c.saturating_sub(d) } else { c + d };
                     ClockCase::Clock { wtime, btime, winc: near(wtime, d1), binc: near(btime, if far { d2 * 8 } else { d2 }), black, order, omit: 0, movestogo }
+                }),
+            // a fixed move time within 400 ms below the mover's own clock, together with the clock fields
+            1 => (clock_value(), clock_value(), inc_value(), inc_value(), 0u64..400, any::<bool>(), 0u8..5, 0u8..4)
+                .prop_map(|(wtime, btime, winc, binc, d, black, place, extra)| {
+                    let own = if black { btime } else { wtime };
+                    ClockCase::Both { wtime, btime, winc, binc, movetime: own.saturating_sub(d), black, place, extra }
                 }),
             2 => (prop_oneof![2 => prop::sample::select(vec![0u64, 1, 4, 5, 6, 10, 50, 200]), 1 => 0u64..2000], any::<bool>()).prop_map(|(movetime, black)| ClockCase::MoveTime { movetime, black }),
             2 => (clock_value(), clock_value(), inc_value(), inc_value(), prop_oneof![1 => prop::sample::select(vec![0u64, 1, 5, 6, 50, 200]), 1 => 0u64..3000], any::<bool>(), 0u8..5, 0u8..4)
